@@ -17,8 +17,10 @@ from props import c08
 
 PRE = c08.prelude() + """lib :: #import("lib.capy");
 EXT : usize : extern;
-Cfg :: struct { n: usize };
+EXT8 : u8 : extern;
+Cfg :: struct { n: usize, m: u8 };
 three :: () -> usize { 3 }
+three8 :: () -> u8 { 3 }
 ret_ty :: () -> type { i32 }
 take :: (comptime n: usize) -> usize { n }
 zero :: (comptime T: type) -> usize { 0 }
@@ -29,6 +31,8 @@ def base_expr(c):
     b, so = c["base"], c["sort"]
     if so == "type":
         return {"lit": "i32", "ct": "comptime { i32 }", "cp": "T", "call": "ret_ty()"}[b]
+    if c["pos"] == "disc":
+        return {"lit": "3", "ct": "comptime { 2 + 2 }", "cp": "M", "ex": "EXT8", "ar": "1 + 2", "call": "three8()", "mem": "cfg.m"}[b]
     return {"lit": "3", "ct": "comptime { 2 + 2 }", "cp": "N", "ex": "EXT", "ar": "1 + 2", "call": "three()", "mem": "cfg.n"}[b]
 
 
@@ -36,10 +40,10 @@ def render(n, c):
     """(main.capy snippet, lib.capy lines)"""
     links = c["links"]
     so = c["sort"]
-    ann = "" if so == "type" else " usize"
+    ann = "" if so == "type" else (" u8" if c["pos"] == "disc" else " usize")      # a discriminant is a u8
     pre_fn, post_fn, body, lib = [], [], [], []
     if c["base"] == "mem":
-        body.append("    cfg :: Cfg.{ n = 3 };")
+        body.append("    cfg :: Cfg.{ n = 3, m = 3 };")
     # names of the bindings, outermost first
     names = []
     for j, l in enumerate(links):
@@ -76,8 +80,10 @@ def render(n, c):
         body.append("    En :: enum { A | %s, B };" % e)
     else:
         body.append("    r := %s(%s);" % ("zero" if so == "type" else "take", e))
-    head = "k%d :: (comptime N: usize, comptime T: type) {" % n if c["base"] == "cp" else "k%d :: () {" % n
-    return "\n".join(pre_fn + [head] + body + ["}"] + post_fn), lib
+    head = "k%d :: (comptime N: usize, comptime T: type, comptime M: u8) {" % n if c["base"] == "cp" else "k%d :: () {" % n
+    # a function with comptime parameters is only checked when it is instantiated
+    inst = ["c%d :: () { k%d(5, i32, 5); }" % (n, n)] if c["base"] == "cp" else []
+    return "\n".join(pre_fn + [head] + body + ["}"] + inst + post_fn), lib
 
 
 def short(c):
@@ -104,7 +110,8 @@ def run(chk):
     skipped = [x for x in cases if not ok(x["c"])]
     cases = [x for x in cases if ok(x["c"])]
     snips = []
-    lib = ["EXT : usize : extern;", "three :: () -> usize { 3 }", "ret_ty :: () -> type { i32 }"]
+    lib = ["EXT : usize : extern;", "three :: () -> usize { 3 }", "ret_ty :: () -> type { i32 }",
+           "EXT8 : u8 : extern;", "three8 :: () -> u8 { 3 }"]
     owner = {}
     for n, x in enumerate(cases):
         s, l = render(n, x["c"])
@@ -119,8 +126,11 @@ def run(chk):
     for n, (x, v) in enumerate(zip(cases, verdicts)):
         c = x["c"]
         if v["crash"]:
-            chk.violation({"kind": "front-end-crash", "pos": c["pos"], "base": c["base"]},
-                          {"case": short(c), "source": snips[n], "crash": v["crash"]})
+            from props import c06
+            cr = v["crash"] if isinstance(v["crash"], dict) else {"msg": str(v["crash"]), "loc": ""}
+            chk.violation({"kind": "front-end-crash", "site": c06.site_of(cr), "msg": c06.norm_msg(cr.get("msg", ""))},
+                          {"case": short(c), "source": snips[n], "crash": v["crash"], "const_by_the_rule": x["const"],
+                           "note": "a const position must be answered with acceptance or a not-const diagnostic"})
             continue
         if v["accepted"] != x["const"]:
             chk.violation({"kind": "verdict", "pos": c["pos"], "base": c["base"], "links": "-".join(c["links"]),
@@ -133,12 +143,12 @@ def run(chk):
             runnable.append(n)
 
     def program(ns):
-        calls = "\n".join("    k%d(%s);" % (n, "5, i32" if cases[n]["c"]["base"] == "cp" else "") for n in ns)
+        calls = "\n".join("    k%d(%s);" % (n, "5, i32, 5" if cases[n]["c"]["base"] == "cp" else "") for n in ns)
         return PRE + "\n".join(snips[n] for n in ns) + "\nmain :: () -> i32 {\n" + calls + "\n    0\n}\n"
     nrun = 0
     if runnable:
         keep = set(runnable)
-        runlib = "\n".join(line for k, line in enumerate(lib, start=1) if k <= 3 or owner.get(k) in keep) + "\n"
+        runlib = "\n".join(line for k, line in enumerate(lib, start=1) if k <= 5 or owner.get(k) in keep) + "\n"
         results = common.run_case_programs(chk, runnable, program, "cstrun", per=60, extra_files={"lib.capy": runlib})
         for n, (line, why) in zip(runnable, results):
             x = cases[n]
